@@ -184,7 +184,9 @@ def gen_history(rng):
                                  else rng.choice(['partial', 'full'])])
         batches.append(batch)
 
-    return {'uids': uids, 'batches': batches}, anomalies
+    return {'uids': uids, 'batches': batches,
+            'cb_style': rng.randint(1, 2 ** 30) if rng.random() < 0.4
+                        else None}, anomalies
 
 
 # ------------------------------------------------------------------------------
@@ -206,6 +208,52 @@ def run_history(case, res):
 
     tm.register_callback(cb_all)
     tasks[case['uids'][0]].register_callback(cb_one)
+
+    # further callbacks which behave the way application callbacks do: they
+    # raise, unregister themselves once they saw what they waited for
+    # (one-shot), or register another callback.  None of that may change what
+    # the observer above is told.
+    style = case.get('cb_style')
+    if style:
+        res.count('histories_with_active_callbacks')
+        import random as _random
+        crng   = _random.Random(style)
+        uids   = case['uids']
+        states = [rps.TMGR_SCHEDULING, rps.AGENT_STAGING_INPUT,
+                  rps.AGENT_EXECUTING, rps.AGENT_STAGING_OUTPUT_PENDING,
+                  rps.DONE, rps.FAILED]
+
+        def one_shot(uid, trigger, wildcard):
+            def cb(task, state):
+                if state == trigger and (wildcard or task.uid == uid):
+                    res.count('one_shot_callbacks_fired')
+                    if wildcard: tm.unregister_callback(cb)
+                    else       : tm.unregister_callback(cb, uid=uid)
+            if wildcard: tm.register_callback(cb)
+            else       : tasks[uid].register_callback(cb)
+
+        def raiser(trigger):
+            def cb(task, state):
+                if state == trigger:
+                    res.count('raising_callbacks_fired')
+                    raise RuntimeError('application callback failed')
+            tm.register_callback(cb)
+
+        def spawner(uid, trigger):
+            def late(task, state):
+                pass
+            def cb(task, state):
+                if state == trigger:
+                    res.count('registering_callbacks_fired')
+                    tasks[uid].register_callback(late)
+            tm.register_callback(cb)
+
+        for _ in range(crng.randint(1, 4)):
+            k = crng.choice(['one', 'one', 'one*', 'raise', 'spawn'])
+            if   k == 'one'  : one_shot(crng.choice(uids), crng.choice(states), False)
+            elif k == 'one*' : one_shot(None, crng.choice(states), True)
+            elif k == 'raise': raiser(crng.choice(states))
+            else             : spawner(crng.choice(uids), crng.choice(states))
 
     v0     = len(res.violations) + res.counters.get('violations_raw', 0)
     finals = dict()            # uid -> first final state observed on Task
